@@ -129,6 +129,41 @@ theorem addPicks_rejects_bad_pick (n : Nat) (es : Edges) (p : Nat × Nat) (ps : 
     (hbad : validPick n es p = false) : addPicks n es (p :: ps) = none := by
   simp [addPicks, hbad]
 
+/-! ### the signed edge count (added after seeded change C17 r6m1: a name parser that drops the
+   minus sign turned `random_connected_-7` into an accepted request) -/
+
+/-- T17.4a at the level the code compares at: every NEGATIVE count is rejected for every
+non-empty node list, whatever the tree and the picks. -/
+theorem random_connected_rejects_negative (name : Nat → α) (n : Nat) (k : Int) (t : Edges)
+    (picks : List (Nat × Nat)) (hn : 1 ≤ n) (hk : k < 0) :
+    randomConnectedZ name n k t picks = .valueError := by
+  unfold randomConnectedZ
+  rw [if_pos]
+  left; omega
+
+/-- rejected iff outside `[n-1, n(n-1)/2]` as integers, or rejected by the Nat-level entry point -/
+theorem random_connected_int_rejects (name : Nat → α) (n : Nat) (k : Int) (t : Edges)
+    (picks : List (Nat × Nat)) (hk : k < (n : Int) - 1 ∨ (n : Int) * ((n : Int) - 1) < 2 * k) :
+    randomConnectedZ name n k t picks = .valueError := by
+  unfold randomConnectedZ
+  rw [if_pos hk]
+
+/-- inside the range the signed entry point IS the natural-number one (so T17.4b applies) -/
+theorem random_connected_int_agrees (name : Nat → α) (n : Nat) (k : Int) (t : Edges)
+    (picks : List (Nat × Nat)) (hlo : (n : Int) - 1 ≤ k) (hhi : 2 * k ≤ (n : Int) * ((n : Int) - 1)) :
+    randomConnectedZ name n k t picks = randomConnected name n k.toNat t picks := by
+  unfold randomConnectedZ
+  rw [if_neg]
+  omega
+
+/-- a graph comes back only for a non-negative count (n ≥ 1) -/
+theorem random_connected_int_ok_nonneg (name : Nat → α) (n : Nat) (k : Int) (t : Edges)
+    (picks : List (Nat × Nat)) (hn : 1 ≤ n) (g : Adj α)
+    (h : randomConnectedZ name n k t picks = .ok g) : 0 ≤ k := by
+  by_cases hk : k < 0
+  · rw [random_connected_rejects_negative name n k t picks hn hk] at h; cases h
+  · omega
+
 /-! non-vacuity: concrete instances satisfy the hypotheses -/
 example : (["A", "B", "C", "D"] : List String).Nodup ∧ 3 ≤ (["A", "B", "C", "D"] : List String).length := by decide
 example : isTreeB 4 [(0, 1), (1, 2), (1, 3)] = true := by decide
@@ -137,5 +172,9 @@ example : ∃ g, randomConnected (fun i => ["A", "B", "C", "D"].getD i "?") 4 4 
 example : addPicks 4 [(0, 1), (1, 2), (1, 3)] [(0, 3), (2, 3)] = some [(0, 1), (1, 2), (1, 3), (0, 3), (2, 3)] := by decide
 example : validPick 4 [(0, 1), (1, 2), (1, 3)] (1, 0) = false ∧ validPick 4 [(0, 1)] (2, 2) = false
     ∧ validPick 4 [(0, 1)] (2, 4) = false := by decide
+example : randomConnectedZ (fun i => ["A", "B", "C", "D"].getD i "?") 4 (-4) [(0, 1), (1, 2), (1, 3)] [(0, 3)]
+    = .valueError := random_connected_rejects_negative _ 4 (-4) _ _ (by decide) (by decide)
+example : ∃ g, randomConnectedZ (fun i => ["A", "B", "C", "D"].getD i "?") 4 4 [(0, 1), (1, 2), (1, 3)] [(0, 3)]
+    = .ok g := ⟨_, rfl⟩
 
 end SqVerif.C17
